@@ -28,7 +28,7 @@ Inductive kop :=
 | OpImport (priv pass salt nonce : bytes)
 | OpSave (s : signer) (pass salt nonce : bytes)
 | OpFallback (pass : bytes)
-| OpHistory (f : file sym) (ops : list hop)      (* the operations applied one after the other to ONE path *)
+| OpHistory (f : file sym) (ops : list (hop sym))      (* the operations applied one after the other to ONE path *)
 | OpSession (s : signer) (ops : list sop).       (* Sign called again and again on one loaded signer *)
 
 (* one observed step of a history: what the call returned, two facts about a signer it yielded, and the
@@ -96,7 +96,7 @@ Definition hres_eqb (m o : hres) : bool :=
 
 (* a history: the model is run from the initial file on its OWN state; at step i (from 1) the codes are
    100*i + (1 = result differs, 2 = signature fact, 3 = address fact, 4 = the file after the step differs) *)
-Fixpoint check_hist (i : N) (f : file sym) (ops : list hop) (obs : list hobs) : list N :=
+Fixpoint check_hist (i : N) (f : file sym) (ops : list (hop sym)) (obs : list hobs) : list N :=
   match ops, obs with
   | [], [] => []
   | op :: r, o :: ro =>
